@@ -15,8 +15,11 @@ def obligations(tier):
                         replace=["mpool_eventq_malloc:vh_q_malloc", "mpool_eventq_free:vh_q_free"], backends=["cadical", "kissat"], timeout=1800 if T else 280,
                         claim="events_immediate.c: from every state with <= %d pending events (arbitrary priorities 0..31, minq anywhere the invariant allows), one %s re-establishes the invariant, and draining yields exactly the model's events in priority order, FIFO within a priority, then NULL" % (npre, opn),
                         bounds="<= %d pending events before the step; all priorities, all admissible minq" % npre, stubs=["TAILQ macros (external/queue/queue.h) -> sequence model, differential-tested", "events_mkrec/events_freerec -> tracked records", "mpool_eventq_malloc/free -> tracked pool"]))
+    obs.append(dict(name="timer-source-steps", harness="tim.c", entry="h_timer", unwind=8, backends=["cadical"], timeout=1800 if T else 280, flags=["--memory-leak-check"],
+                    claim="events_timer.c over an abstract timer queue and an arbitrary clock: deadline = now + timeout (normalised); reset re-arms with the original timeout; events_timer_min = NULL / 0 / exact distance to the earliest deadline; events_timer_get passes on the record of an entry due now; cancel removes its own entry; clock/allocation failures => -1/NULL, nothing leaked",
+                    bounds="seconds in [0, 2^60], microseconds in [0, 10^6)", stubs=["timerqueue_* -> recording abstract queue (heap order is C13)", "monoclock_get -> arbitrary instant or failure", "events_mkrec/freerec -> tracked", "atexit -> no-op"]))
     return obs
 SELFTESTS = [dict(name="tailq-model-vs-queue-h", srcs=["/verif/models/tailq/selftest_tailq.c"], what="models/tailq/queue.h (sequence model of TAILQ) == external/queue/queue.h on 2,000,000 random insert/remove operations over 3 lists")]
 TRUSTED = ["CBMC 6.11 C semantics", "cadical"]
-ASSUMPTIONS = ["priority/FIFO order inside the immediate source, deadline order of timers and the millisecond rounding are properties of the sources: rounding is decided in C04 network-select, heap order in C13; events_timer.c (events_timer_min arithmetic) has no obligation of its own"]
+ASSUMPTIONS = ["priority/FIFO order inside the immediate source, deadline order of timers and the millisecond rounding are properties of the sources: rounding is decided in C04 network-select, heap order in C13"]
 EXPLANATION = ""
